@@ -779,6 +779,7 @@ def run_fragment(body: Sequence[ast.stmt], names: Dict[str, Any], attrs: Optiona
                     seq = fold(it)
                     if not isinstance(seq, (list, str)):
                         raise Unfoldable("loop is not over a range, a list or a string")
+                broke_ = False
                 for i in seq:
                     if COVERAGE is not None:
                         COVERAGE.add((id(st), "body"))
@@ -786,10 +787,14 @@ def run_fragment(body: Sequence[ast.stmt], names: Dict[str, Any], attrs: Optiona
                     try:
                         run(st.body)
                     except _Break:
+                        broke_ = True
                         break
                     except _Continue:
                         continue
+                if not broke_ and st.orelse:
+                    run(st.orelse)  # for ... else: runs when the loop was not left by break
             elif isinstance(st, ast.While):
+                broke_ = False
                 while True:
                     steps[0] += 1
                     if steps[0] > max_steps:
@@ -801,9 +806,12 @@ def run_fragment(body: Sequence[ast.stmt], names: Dict[str, Any], attrs: Optiona
                     try:
                         run(st.body)
                     except _Break:
+                        broke_ = True
                         break
                     except _Continue:
                         continue
+                if not broke_ and st.orelse:
+                    run(st.orelse)
             elif isinstance(st, ast.Break):
                 raise _Break()
             elif isinstance(st, ast.Continue):
